@@ -656,8 +656,10 @@ def gen_records(rng, v, focus=None, position=None, hostile_p=0.35, allow_bytes=T
     if v.fmt == "markdown":
         import re as _re
         for r in recs:
-            if all(_re.fullmatch(rb":?-{3,}:?", val) for _, val in r):
+            if all(_re.fullmatch(rb":?-+:?", val) for _, val in r):
                 r[0] = (r[0][0], b"v")     # a row of nothing but rule cells is the header rule (inherent)
+            if all(_re.fullmatch(rb":?-+:?", k) for k, _ in r):
+                return None, "markdown header made of rule cells"
     if not v.sole_empty_ok:
         for r in recs:
             if len(r) == 1 and r[0][1] == b"":
